@@ -349,8 +349,9 @@ def _run_crashy(binary, args_before, cases, lo, hi, workdir, tag, timeout, depth
 
 def project(lines, sections):
     """keep the lines whose first field is in `sections` (None = all)"""
+    # ED (the position the Display text of an error ends with) exists on the implementation side only
     if sections is None:
-        return lines
+        return [l for l in lines if not l.startswith("ED ")]
     return [l for l in lines if l.split(" ", 1)[0] in sections]
 
 
